@@ -6,8 +6,8 @@
 from hypothesis import strategies as st
 
 VAR_POOLS = {
-    "std": ["S", "A", "B", "C"],
-    "long": ["S", "Aa", "B1", "Cvar"],
+    "std": ["S", "A", "B", "C", "D", "E"],
+    "long": ["S", "Aa", "B1", "Cvar", "Dd", "E5"],
     # every name the library itself creates for fresh variables (cfg.py) can also be a user's variable
     "fresh": ["S", "A", "#STARTUNION#", "#STARTCONC#", "#STARTCLOS#", "#STARTPOSCLOS#", "#VARPOSCLOS#", "A#SUBS#0",
               "S#SUBS#0", "C#CNF#1", "a#CNF#", "b#CNF#", "#EMPTY##SUBS#0"],
@@ -29,18 +29,23 @@ TEXT_OK_TERMS = ("ab", "abc", "tok", "upper", "shared")
 
 @st.composite
 def cfg_desc(draw, var_pools=None, term_pools=None, max_vars=4, max_prods=8, max_body=4,
-             allow_text=True, start_always=True, unit_bias=True, min_prods=1, suffix_bias=False):
+             allow_text=True, start_always=True, unit_bias=True, min_prods=1, suffix_bias=False, allow_big=True):
     vp = draw(st.sampled_from(var_pools or ["std", "std", "std", "long", "lower", "ints", "fresh"]))
     tp = draw(st.sampled_from(term_pools or ["ab", "ab", "abc", "tok", "upper", "shared", "ints"]))
     vpool, tpool = VAR_POOLS[vp], TERM_POOLS[tp]
-    nv = min(draw(st.sampled_from([3, 2, 4, 3, 1, 2, 4])), max_vars, len(vpool))
+    # one case in six is "big": longer bodies, more variables and productions than the usual bounds
+    big = allow_big and draw(st.sampled_from([0, 0, 0, 1, 0, 0])) == 1
+    if big:
+        max_vars, max_prods, max_body = max_vars + 2, max_prods + 4, max(max_body, 6)
+    nv = min(draw(st.sampled_from([5, 6, 4, 3] if big else [3, 2, 4, 3, 1, 2, 4])), max_vars, len(vpool))
     vs = [vpool[0]] + draw(st.lists(st.sampled_from(vpool[1:]), min_size=nv - 1, max_size=nv - 1,
                                     unique_by=repr)) if nv > 1 else [vpool[0]]
     nt = draw(st.integers(1, min(3, len(tpool))))
     ts = tpool[:2] + draw(st.lists(st.sampled_from(tpool[2:]), max_size=1)) if len(tpool) > 3 else tpool[:nt]
     sym = st.one_of(st.sampled_from(vs).map(lambda v: ["V", v]),
                     st.sampled_from(ts).map(lambda t: ["T", t]))
-    body_len = st.sampled_from([2, 1, 2, 3, 0, 1, 2, 3, max_body][: 8 if max_body < 4 else 9])
+    body_len = st.sampled_from([5, 6, 2, 5, 3, 1, 6, 4, 0] if big else
+                               [2, 1, 2, 3, 0, 1, 2, 3, max_body][: 8 if max_body < 4 else 9])
     body = body_len.flatmap(lambda k: st.lists(sym, min_size=min(k, max_body), max_size=min(k, max_body)))
     specials = []
     if unit_bias:
@@ -66,6 +71,8 @@ def cfg_desc(draw, var_pools=None, term_pools=None, max_vars=4, max_prods=8, max
             if p not in prods:
                 prods.append(p)
     d = {"start": vs[0], "prods": prods, "vpool": vp, "tpool": tp, "how": "ctor"}
+    if big:
+        d["big"] = True
     if allow_text and vp in TEXT_OK_VARS and tp in TEXT_OK_TERMS and draw(st.integers(0, 2)) == 0:
         d["how"] = "text"
     if d["how"] == "ctor" and draw(st.integers(0, 5)) == 0:
